@@ -30,6 +30,10 @@ func runC18(c *an.Ctx) {
 	// answer carries no executor id) and on the roster keeping every task that was not explicitly killed
 	c.As(map[string]string{"R04h": "R18f"}, func() { r04h(c) })
 	c.As(map[string]string{"R04g": "R18g"}, func() { r04g(c) })
+	// round 7
+	r18h(c)
+	r18i(c)
+	r18j(c)
 }
 
 func r18a(c *an.Ctx) {
